@@ -54,6 +54,10 @@ def run(ck: Check):
                 continue
             for cfg in ({}, {"repeat": "always"}):
                 ex.dfs("minimize", cfg, tc, stream="dfs-near-identical-atoms", max_runs=60 if quick else 600)
+    for parts in ([b"keep1\n", b"plumless\n", b"keep2\n", b"buckeroo\n"], [b"plumless\n", b"buckeroo\n", b"x\n"]):     # CRC-32 / Adler-32 twins
+        tcc = (b"", parts, [True] * len(parts), b"")
+        for cfg in ({}, {"repeat": "always"}):
+            ex.dfs("minimize", cfg, tcc, stream="dfs-colliding-atoms", max_runs=150 if quick else 1500)
     # the same strategy object after another file
     from universe import reuse_universe
     reuse_universe(ex, ck, strategies=("minimize",))
@@ -109,6 +113,28 @@ def run(ck: Check):
                    "clock": [], "atom": "line", "exc_class": "TestRaised", "load": True,
                    "session": [s_["file0"].hex() for s_ in steps], "note": "same objects for all runs; test = family " + str(i % len(fam2))}
             make_oracle_c03(lambda ctx, run, f=f: f)(ck, ctx, run_)
+    # a --tempdir that still holds the numbered logs of an earlier reduction under ANOTHER test (files the current test would
+    # accept, tagged boring; files it rejects, tagged interesting): nothing is learnt from them - the result is 1-minimal
+    from runner import impl_run
+    from explore import replay_doc
+    lines5 = [b"a\n", b"b\n", b"c\n", b"d\n", b"e\n"]
+    data5 = b"".join(lines5)
+    for need in ([3], [1, 3], [0], [4], [2, 4]):
+        f5 = (lambda d, need=need: all(lines5[i] in d for i in need))
+        stale = {}
+        for k_, keep in enumerate(([3], [1, 3], [3, 4], [0, 3], [], [1], [0, 1, 2, 3], [4], [2, 4], [0])):
+            stale[f"{k_ + 1}-{'boring' if k_ % 3 else 'interesting'}.txt"] = b"".join(lines5[i] for i in keep)
+        for cfg in ({}, {"repeat": "always"}):
+            run_ = impl_run("minimize", cfg, None, data5, lambda k, d, f5=f5: "Y" if f5(d) else "N", load=True, prefill=stale)
+            ck.count("stale-tempdir")
+            ck.nontrivial(("stale-tempdir", tuple(need), tuple(cfg.items())))
+            want = b"".join(lines5[i] for i in need)
+            if run_.exc is not None or run_.final != want:
+                ctx = {"strategy": "minimize", "cfg": cfg, "tc": run_.loaded, "file0": data5, "verdicts": "", "clock": [], "atom": "line",
+                       "exc_class": "TestRaised", "load": True, "tempdir_prefilled_with": sorted(stale)}
+                ck.violation(f"minimize in a temp dir that already held {sorted(stale)[:4]}... (logs of another test): the run ended "
+                             f"exc={run_.exc} with {run_.final!r}; the test needs only {want!r}, so the result is not 1-minimal",
+                             replay_doc(ctx, run_))
     from scale import order_dependent_minimality
     order_dependent_minimality(ck)
     return ck.finish(level="proof", rule=RULE, assumptions=[
